@@ -168,3 +168,42 @@ Proof.
     apply flags_list_nil_iff. intros k Hk.
     apply (proj1 (count_false_zero_iff _) Hc). apply in_map. exact Hk.
 Qed.
+
+(* ---- the overall failure count is 0 exactly when every verdict of every field (present or missing) is a pass;
+   so one failing constraint anywhere makes the overall count positive *)
+
+Theorem dataset_failures_zero_iff_proof p (fs : list (option column * list constr)) :
+  v_failures (verify_dataset p fs) = 0 <->
+  forall f k, In f fs -> In k (snd f) -> verify p (fst f) k = true.
+Proof.
+  destruct (dataset_totals_spec_proof p fs) as (H1 & _ & H3). cbv zeta in H1, H3.
+  rewrite H3, H1. clear H1 H3.
+  induction fs as [|f fs IH]; [split; [intros _ f k []|reflexivity]|].
+  cbn [map fold_right].
+  destruct (field_totals_spec_proof p (fst f) (snd f)) as (_ & _ & F3 & _). cbv zeta in F3.
+  rewrite F3.
+  pose proof (count_false_nonneg (map (verify p (fst f)) (snd f))) as Hn.
+  pose proof (sum_failures_nonneg p fs) as Hs.
+  split.
+  - intros H f' k [<-|Hf'] Hk.
+    + assert (Hc : count_false (map (verify p (fst f)) (snd f)) = 0) by lia.
+      apply (proj1 (count_false_zero_iff _) Hc). apply in_map. exact Hk.
+    + apply (proj1 IH); [lia|exact Hf'|exact Hk].
+  - intros H.
+    assert (Hc : count_false (map (verify p (fst f)) (snd f)) = 0).
+    { apply count_false_zero_iff. intros b Hb. apply in_map_iff in Hb. destruct Hb as [k [<- Hk]].
+      apply (H f k); [left; reflexivity|exact Hk]. }
+    assert (Hr : fold_right Z.add 0 (map fr_failures (map (fun f0 => verify_field p (fst f0) (snd f0)) fs)) = 0).
+    { apply IH. intros f' k Hf' Hk. apply (H f' k); [right; exact Hf'|exact Hk]. }
+    lia.
+Qed.
+
+Theorem one_failure_is_counted_proof p (fs : list (option column * list constr)) f k :
+  In f fs -> In k (snd f) -> verify p (fst f) k = false -> 0 < v_failures (verify_dataset p fs).
+Proof.
+  intros Hf Hk Hv.
+  assert (Hnz : v_failures (verify_dataset p fs) <> 0).
+  { intros Hz. rewrite (proj1 (dataset_failures_zero_iff_proof p fs) Hz f k Hf Hk) in Hv. discriminate. }
+  destruct (dataset_totals_spec_proof p fs) as (H1 & _ & H3). cbv zeta in H1, H3.
+  pose proof (sum_failures_nonneg p fs) as Hs. rewrite <- H1, <- H3 in Hs. lia.
+Qed.
